@@ -43,8 +43,8 @@ FILE_CHECKS = {
     "scripts/compute_scales.py": ["C06", "C19"],
     "scripts/convert_chunks.py": ["C13", "C20"],
     "scripts/generate_scales_info.py": ["C08", "C19"],
-    "scripts/link_mesh_fragments.py": ["C17"],
-    "scripts/mesh_to_precomputed.py": ["C17"],
+    "scripts/link_mesh_fragments.py": ["C17", "C19"],
+    "scripts/mesh_to_precomputed.py": ["C17", "C19"],
     "scripts/scale_stats.py": ["C20"],
     "scripts/slices_to_precomputed.py": ["C15"],
     "scripts/volume_to_precomputed.py": ["C01", "C16", "C19"],
@@ -60,7 +60,7 @@ BIN = {ast.Add: ("+", "-"), ast.Sub: ("-", "+"), ast.Mult: ("*", "//"), ast.Floo
 def skip_line(text):
     t = text.strip()
     return (t.startswith(("logger.", "logging.", "warnings.", "print(", "help=", "description=", '"', "'", "#", "@"))
-            or "add_argument" in t or "help=" in t or "__all__" in t or "import " in t)
+            or "add_argument" in t or "help=" in t or "__all__" in t or "import " in t or "__name__" in t)
 
 
 class Finder(ast.NodeVisitor):
@@ -154,7 +154,31 @@ class Finder(ast.NodeVisitor):
         self.generic_visit(node)
 
 
+def crash_candidates():
+    """one mutant per function: raise at entry (shows how a check treats a tool / API that fails on
+    valid input)"""
+    out = []
+    for rel in sorted(FILE_CHECKS):
+        path = os.path.join(REPO, SRC, rel)
+        src = open(path).read()
+        lines = src.split("\n")
+        for node in ast.walk(ast.parse(src)):
+            if isinstance(node, (ast.FunctionDef,)) and node.name not in ("parse_command_line",):
+                body = node.body
+                first = body[0]
+                if isinstance(first, ast.Expr) and isinstance(first.value, ast.Constant) and len(body) > 1:
+                    first = body[1]
+                ln = first.lineno
+                indent = len(lines[ln - 1]) - len(lines[ln - 1].lstrip())
+                out.append({"file": rel, "line": ln, "col": indent, "end": indent, "old": "",
+                            "new": 'raise RuntimeError("mutant")\n' + " " * indent, "op": "crash",
+                            "text": "def " + node.name})
+    return out
+
+
 def candidates():
+    if os.environ.get("MUT_MODE") == "crash":
+        return crash_candidates()
     out = []
     for rel in sorted(FILE_CHECKS):
         path = os.path.join(REPO, SRC, rel)
